@@ -102,7 +102,7 @@ def gen_cm(rnd):
         N, binary = 2, True
     else:
         N, binary = rnd.randint(2, 4), False
-    X = rnd.choice([[], [], [3], [2, 2], [0], [2, 1]])
+    X = rnd.choice([[], [], [3], [2, 2], [0], [2, 1], [1], [1, 1, 2]])
     n = int(np.prod(X + [N, N])) if X + [N, N] else 1
     data = [rnd.choice([0, 0, 1, 2, 5, rnd.randint(0, 40)]) for _ in range(n)]
     if rnd.random() < 0.2:
@@ -965,6 +965,23 @@ def execute(scn, ctx):
                                      "detail": f"{tags['name']} returned {str(r)[:120]!r} but {base['name']} returns {str(rb)[:120]!r} [op {step}]"})
                 except Exception as e:  # noqa: BLE001
                     viol.append({"invariant": "C10.alias", "detail": f"{base['name']} raised {type(e).__name__} while {tags['name']} succeeded [op {step}]", "tags": tags})
+            # as_dict=True: the entry of class j is column j of the array result, with the stack shape kept
+            if k in ("cm_metric", "cm_ci") and op.get("as_dict") and isinstance(r, dict):
+                try:
+                    arr = np.asarray(evaluate(twin_of(oi), dict(op, as_dict=False), args, {}, L2))
+                    Xm, N_ = o.matrix.shape[:-2], o.matrix.shape[-1]
+                    tail = (2,) if k == "cm_ci" else ()
+                    if arr.shape == Xm + (N_,) + tail and len(r) == N_:
+                        probe("as_dict_checked")
+                        for j, (key_, val_) in enumerate(r.items()):
+                            col = arr[(Ellipsis, j) + ((slice(None),) if tail else ())]
+                            if np.shape(val_) != col.shape or not M.same(np.asarray(val_), np.asarray(col)):
+                                viol.append({"invariant": "C10.shape_law", "tags": tags,
+                                             "detail": f"{op['name']}(as_dict=True)[{key_!r}] has shape {np.shape(val_)} on a matrix of shape {o.matrix.shape}; column {j} of the "
+                                                       f"array result has shape {col.shape}{'' if np.shape(val_) != col.shape else ' and other values'} [op {step}]"})
+                                break
+                except Exception as e:  # noqa: BLE001
+                    viol.append({"invariant": "C10.shape_law", "tags": tags, "detail": f"{op['name']}() raised {type(e).__name__} while as_dict=True succeeded [op {step}]"})
             # vectorised ConfusionMatrix metric vs the metric of one stacked matrix
             if k == "cm_metric" and not op.get("as_dict") and o.matrix.ndim > 2 and o.matrix.size and o.binary:
                 Xm = o.matrix.shape[:-2]
